@@ -254,7 +254,7 @@ HEADER_MENUS = [
     [("Accept", ";;;,, ,*/*")],
 ]
 PATHS_VIEW = ["/", "/a/b", "/é/ü", "", "/a b", "/%41"]
-QUERIES = [b"", b"a=1&a=2", b"x=%E4%B8%AD", b"a=&b", b"%ff=%zz"]
+QUERIES = [b"", b"a=1&a=2", b"x=%E4%B8%AD", b"a=&b", b"%ff=%zz", "q=caf\u00e9&\u4e2d=1".encode("utf-8"), b"l=\xe9"]  # the last two: raw UTF-8, a raw Latin-1 byte (not percent-encoded)
 
 
 def view_requests():
@@ -591,6 +591,14 @@ def run_shard(desc, tier):
             for dn in ("plain.txt", "é.txt", "中.txt"):
                 apps = {i: (lambda i=i: (lambda *a: mod(i).FileResponse(t.file, download_name=dn, content_type="text/x-c04")(*a)))() for i in ("wsgi", "asgi")}
                 compare(r, f"file:download_name={dn}", apps, SV.AReq(), "GET")
+            # header fields the response generates itself, named in the caller's headers= as well (any spelling)
+            for hname, hval in (("Content-Disposition", "inline"), ("content-disposition", "inline"), ("ETag", '"own"'), ("Last-Modified", "Tue, 15 Nov 1994 08:12:31 GMT"), ("Accept-Ranges", "none"), ("accept-ranges", "none"),
+                                ("Content-Type", "text/x-own"), ("Content-Length", "3"), ("X-Own", "1")):
+                for dn in ("report.pdf", None):
+                    for hs in ([], [("Range", "bytes=2-5")], [("Range", "bytes=0-1,4-7")]):
+                        for method in ("GET", "HEAD"):
+                            apps = {i: (lambda i=i: (lambda *a: mod(i).FileResponse(t.file, headers={hname: hval}, download_name=dn)(*a)))() for i in ("wsgi", "asgi")}
+                            compare(r, f"file:own-header:{hname}", apps, SV.AReq(method=method, headers=hs), f"{method} {hs} headers={{{hname!r}: {hval!r}}} download_name={dn!r}")
             # the media type is guessed when none is given: from which name? (the file on disk is file.txt)
             for dn in ("export.csv", "page.html", "data.json", "noext", "archive.tar.gz", "x.unknownext", "UPPER.PNG", ".hidden"):
                 for hs in ([], [("Range", "bytes=0-1,4-7")], [("Range", "bytes=2-5")]):
